@@ -12,7 +12,14 @@ RULE = ("the repository's BibTeX-derived corpus first (REGULAR_NAME_PARTS_PARSIN
         "sequence of length <= 5 + samples of lengths 6, 7); names of 1-9 words with every upper/lower/caseless pattern in the three "
         "comma forms; non-ASCII letters; SplitNameParts / MergeNameParts on entries (valid, invalid, non-list values); ONE "
         "SplitNameParts object over 1-3 libraries of 1-4 blocks each (entries with valid names, entries with an invalid name, comments; "
-        "with and without in-place modification): every block must get what a fresh middleware gives it (stream library, oracle only). "
+        "with and without in-place modification): every block must get what a fresh middleware gives it (stream library, oracle only); "
+        "WHITE SPACE (streams ws-*): every separator of the name tokeniser (space, tab, CR, LF, '~', CRLF, line end + indent) and every "
+        "white-space-like character that is NOT a separator (FF, VT, FS..US, U+0085, U+00A0, U+1680, U+2009, U+200B, U+2028, U+2029, "
+        "U+3000, U+FEFF) between and around words and commas: every sequence of length <= 4 over {Aa, bb, comma, W} for each W, names "
+        "of 1-5 words in the three comma forms with every gap drawn from the separators, both in plain names (no brace, no backslash) "
+        "and in names with braces/escapes, realistic names wrapped over two lines with LF / CRLF / CR line ends, the same names "
+        "through SplitNameParts (streams ws-middleware, ws-library) and through parse_string on bib texts with LF / CRLF / CR line "
+        "ends + SeparateCoAuthors + SplitNameParts (stream ws-text, oracle only). "
         "distinct = distinct (text, strict flag) or (entry, middleware) or (libraries); non-trivial = at least two words, or a brace/backslash/"
         "comma, or an invalid name")
 TRUSTED = ["independent Python transcription of BibTeX's name algorithm (harness/props/names_common.py: spec_parse), validated at "
@@ -94,6 +101,7 @@ def generate(rng, tier):
         mws = rng.choice([[2], [2], [2], [2, [3, 0]], [2, [3, 1]], [2, [3, 0], 2], [[3, 0]], [[3, 2]], [2, [3, 2]], [2, 2]])
         cases.append({"stream": "middleware", "input": {"level": "mw", "fields": fields, "mws": mws}})
     cases.extend(library_cases(rng, 1500 if tier == "quick" else 15000, pn, pool))
+    cases.extend(whitespace_cases(rng, tier, seen))
     return cases
 
 
@@ -172,13 +180,162 @@ def library_cases(rng, n, pn, pool):
     return cases
 
 
+# ---------------------------------------------------------------- white space
+# what the name tokeniser separates words at (single characters first, then the runs a wrapped value contains) ...
+WS_SEP1 = [" ", "\t", "\r", "\n", "~"]
+WS_SEPS = WS_SEP1 + ["\r\n", "\n    ", "\r\n\t", "\r  ", " \r", "\t\t", "~ ", "\n\n", "\r\r", " \t\r\n~"]
+# ... and what it does not, although str.split(), str.isspace(), str.splitlines() or the regex class \s do: such a
+# character is an ordinary (caseless) character of its word
+WS_NONSEP = ["\f", "\v", "\x1c", "\x1d", "\x1e", "\x1f", "\x85", "\xa0", "\u1680", "\u2009", "\u200b", "\u2028", "\u2029",
+             "\u3000", "\ufeff"]
+# words without any brace or backslash
+UP_PLAIN = ["Aa", "Knuth", "Éa", "B.", "O'Neil", "1Ab"]
+LO_PLAIN = ["bb", "von", "de", "ßa", "d'", "2b"]
+CL_PLAIN = ["11", "--", "1.", "&"]
+WS_REALISTIC = ["Donald E. Knuth", "Ludwig van Beethoven", "Charles Louis Xavier Joseph de la Vallee Poussin",
+                "de la Fontaine, Jean~Paul", "Ford, Jr., Henry", "von Neumann, John", "Brinch Hansen, Per", "jean de la fontaine",
+                "{Barnes and Noble, Inc.} Staff", "Jean-Paul {\\'E}mile de~la Tour"]
+
+
+def ws_words(rng, pat, plain):
+    tab = {"U": UP_PLAIN, "L": LO_PLAIN, "C": CL_PLAIN} if plain else {"U": UP, "L": LO, "C": CL}
+    base = {"U": "Aa", "L": "bb", "C": "11"}
+    ws = [rng.choice(tab[p]) if rng.random() < 0.5 else base[p] for p in pat]
+    if not plain and not any(c in w for w in ws for c in "{}\\"):
+        i = rng.randrange(len(ws))
+        ws[i] = rng.choice({"U": UP[1:3] + UP[5:], "L": LO[1:2] + LO[4:5] + LO[6:7], "C": CL[1:6] + CL[7:]}[pat[i]])
+    return ws
+
+
+def ws_join(rng, words, ncommas, gap, edge=0.25):
+    """the words with `ncommas` commas; gap() gives the separator run of one place; white space may also stand in front
+    of a comma, be missing behind it, and surround the whole name"""
+    n = len(words)
+    cuts = sorted(rng.sample(range(1, n), ncommas)) if ncommas else []
+    out = [gap() if rng.random() < edge else ""]
+    for i, w in enumerate(words):
+        if i:
+            if i in cuts:
+                out.append((gap() if rng.random() < 0.3 else "") + "," + (gap() if rng.random() < 0.8 else ""))
+            else:
+                out.append(gap())
+        out.append(w)
+    out.append(gap() if rng.random() < edge else "")
+    return "".join(out)
+
+
+def ws_wrapped(name, eols=("\n", "\r\n", "\r")):
+    """a value wrapped over two lines at each of its blanks, with the continuation indent a bib file has"""
+    for i, c in enumerate(name):
+        if c == " ":
+            for eol in eols:
+                for indent in ("", "    ", "\t"):
+                    yield name[:i] + eol + indent + name[i + 1:]
+
+
+def whitespace_cases(rng, tier, seen):
+    quick = tier == "quick"
+    names = []
+    # (1) bounded-exhaustive: one white-space character W at a time, alone between / around words and commas
+    for w in WS_SEP1 + WS_NONSEP:
+        names.extend(nc.token_sequences(["Aa", "bb", ",", w], 4 if quick else 5, [], 0, rng))
+    for w in WS_SEP1[1:4] + WS_NONSEP[:2] + WS_NONSEP[6:8]:
+        # ... and next to a brace, a backslash, a blank
+        names.extend(nc.token_sequences(["Aa", "{bb}", "\\", ",", " ", w], 3 if quick else 4, [], 0, rng))
+    # (2) every upper/lower/caseless pattern in the three comma forms, all gaps filled with the same separator
+    nmax = 4 if quick else 5
+    for n in range(1, nmax + 1):
+        for pat in itertools.product("ULC", repeat=n):
+            for sep in WS_SEP1 + ["\r\n"]:
+                for plain in (True, False):
+                    if not plain and (n > 3 and rng.random() < 0.5):
+                        continue
+                    words = ws_words(rng, pat, plain)
+                    for nco in range(0, min(3, n)):
+                        names.append(ws_join(rng, words, nco, lambda: sep, edge=0.15))
+    # (3) realistic names wrapped over two lines
+    for base in WS_REALISTIC:
+        names.extend(ws_wrapped(base))
+    # (4) random mixtures: several kinds of separator in one name, non-separators glued to words or standing alone
+    for _ in range(3000 if quick else 40000):
+        n = rng.choice([1, 2, 2, 3, 3, 3, 4, 4, 5])
+        pat = [rng.choice("ULC") for _ in range(n)]
+        plain = rng.random() < 0.5
+        words = ws_words(rng, pat, plain)
+        r = rng.random()
+        if r < 0.4:
+            for _ in range(rng.randint(1, 2)):
+                i = rng.randrange(len(words))
+                x = rng.choice(WS_NONSEP)
+                k = rng.randrange(4)
+                if k == 0:
+                    words[i] = x + words[i]
+                elif k == 1:
+                    words[i] = words[i] + x
+                elif k == 2:
+                    words.insert(i, x)  # a word of its own
+                elif i + 1 < len(words):
+                    words[i:i + 2] = [words[i] + x + words[i + 1]]  # no separator at all: one word
+        elif r < 0.5 and not plain:
+            i = rng.randrange(len(words))
+            words[i] = words[i] + "\\"  # a backslash in front of the separator: not an escape
+        pool = WS_SEPS if rng.random() < 0.7 else [rng.choice(WS_SEPS), rng.choice(WS_SEPS)]
+        nco = rng.choice([0, 0, 1, 1, 2, 3]) if len(words) > 3 else rng.randrange(0, len(words))
+        names.append(ws_join(rng, words, min(nco, len(words) - 1), lambda: rng.choice(pool)))
+    uniq = []
+    for s in names:
+        if s not in seen:
+            seen.add(s)
+            uniq.append(s)
+    cases = [{"stream": "ws-names", "input": {"level": "fn", "s": s, "strict": True}} for s in uniq]
+    for s in rng.sample(uniq, min(3000 if quick else 30000, len(uniq))):
+        cases.append({"stream": "ws-nonstrict", "input": {"level": "fn", "s": s, "strict": False}})
+    # (5) the same names through SplitNameParts
+    ws_only = [s for s in uniq if any(c in s for c in "\t\r\n\f\v\xa0\x85\u2028")]
+    for _ in range(600 if quick else 6000):
+        keys = ["author", "editor", "translator", "title"]
+        rng.shuffle(keys)
+        fields = [[k, {"list": [rng.choice(ws_only) for _ in range(rng.randint(1, 3))]}] for k in keys[:rng.randint(1, 3)]]
+        cases.append({"stream": "ws-middleware", "input": {"level": "mw", "fields": fields, "mws": rng.choice([[2], [2], [2, [3, 0]], [2, [3, 1]]])}})
+    good = [s for s in rng.sample(ws_only, min(4000, len(ws_only))) if nc.spec_parse(s) is not None]
+    for c in library_cases(rng, 250 if quick else 2500, good, ws_only):
+        c["stream"] = "ws-library"
+        cases.append(c)
+    # (6) ... and through parse_string: bib texts with LF / CRLF / CR line ends, values wrapped over several lines
+    simple = [s for s in good if not any(c in s for c in "{}\\\"@#=") and not any(c in s for c in WS_NONSEP)]
+    braced = [s for s in good if any(c in s for c in "{}") and "\\" not in s and '"' not in s and not any(c in s for c in WS_NONSEP)]
+    for _ in range(250 if quick else 2500):
+        eol = rng.choice(["\n", "\r\n", "\r\n", "\r"])
+        chunks = []
+        for i in range(rng.randint(1, 3)):
+            flds = []
+            for k in rng.sample(["author", "editor", "title", "year"], rng.randint(1, 3)):
+                if k in ("author", "editor"):
+                    nm = []
+                    for _ in range(rng.randint(1, 3)):
+                        r = rng.random()
+                        nm.append(rng.choice(WS_REALISTIC[:8]) if r < 0.4 else rng.choice(simple) if r < 0.8 else
+                                  rng.choice(braced) if r < 0.95 else rng.choice(["Bb,", "Aa, Bb, Cc, Dd"]))
+                    v = (" and" + rng.choice([" ", eol + "    ", eol + "\t", " " + eol])).join(nm)
+                    # wrap at blanks, the way an editor with this line end would
+                    v = "".join((eol + rng.choice(["", "  ", "      ", "\t"])) if c == " " and rng.random() < 0.3 else c for c in v)
+                    v = v.replace("\n", eol) if eol != "\n" else v
+                    v = v.replace("\r\r\n", "\r\n")
+                else:
+                    v = rng.choice(["T", "1999", "A title" + eol + "   wrapped"])
+                flds.append("  %s = {%s}" % (k, v))
+            chunks.append("@article{k%d,%s%s%s}%s" % (i, eol, ("," + eol).join(flds), eol, eol + rng.choice(["", eol])))
+        cases.append({"stream": "ws-text", "input": {"level": "text", "text": "".join(chunks), "eol": eol}})
+    return cases
+
+
 def shrink(case):
     inp = case["input"]
     if inp["level"] == "fn":
         s = inp["s"]
         for i in range(len(s)):
             yield {"stream": case.get("stream", "?"), "input": {"level": "fn", "s": s[:i] + s[i + 1:], "strict": inp["strict"]}}
-    else:
+    elif inp["level"] == "mw":
         fs = inp["fields"]
         for i in range(len(fs)):
             yield {"stream": "middleware", "input": dict(inp, fields=fs[:i] + fs[i + 1:])}
@@ -266,6 +423,10 @@ def impl(case):
         spec = nc.spec_parse(s)
         nwords = sum(len(x) for x in nc.top_words5(s))
         rec["nontrivial"] = nwords >= 2 or any(c in s for c in "{}\\,") or spec is None
+        wskinds = [t for t, cs in (("ws_tab", "\t"), ("ws_cr", "\r"), ("ws_lf", "\n"), ("ws_nonsep", WS_NONSEP)) if any(c in s for c in cs)]
+        if wskinds:
+            rec["tags"].extend(wskinds)
+            rec["tags"].append("ws_in_braced_name" if any(c in s for c in "{}\\") else "ws_in_plain_name")
         if res is None:
             rec["sx_in"] = [81 if strict else 82, enc.enc_str(s)]
             rec["sx_out"] = implutil.r_exc(implutil.EXC_CODES.get(exc, implutil.EXC_OTHER))
@@ -317,6 +478,8 @@ def impl(case):
         return rec
     if inp["level"] == "lib":
         return impl_lib(inp, implutil)
+    if inp["level"] == "text":
+        return impl_text(inp, implutil)
     # ---- middleware level
     from bibtexparser.library import Library
     from bibtexparser.model import Entry, Field
@@ -519,6 +682,53 @@ def impl_lib(inp, implutil):
         if len(out.failed_blocks) != sum(1 for d in blocks if is_bad(d)) or len(out.entries) != sum(1 for d in blocks if "fields" in d and not is_bad(d)):
             ok, detail = False, "library #%d: failed_blocks / entries do not partition the entries by validity of their names" % li
             break
+    rec["oracle"] = {"ok": ok, "detail": detail}
+    rec["summary"] = "".join(kinds)
+    return rec
+
+
+def impl_text(inp, implutil):
+    """parse_string on a bib text whose values are wrapped over lines (LF / CRLF / CR), then SeparateCoAuthors +
+    SplitNameParts: every name the co-author split hands over must come out as BibTeX's rules say, whatever white space
+    the file had between its words (oracle only: the Coq model of this property starts at the name)."""
+    import warnings
+    import bibtexparser
+    from bibtexparser.middlewares import SeparateCoAuthors, SplitNameParts
+    from bibtexparser.middlewares.names import NameParts
+    text = inp["text"]
+    rec = {"sx_in": None, "sx_out": None, "key": json.dumps(["text", text]), "tags": ["ws_text", "ws_text_eol_%s" % {"\n": "lf", "\r\n": "crlf", "\r": "cr"}[inp["eol"]]]}
+
+    def run():
+        with warnings.catch_warnings():
+            warnings.simplefilter("ignore")
+            a = bibtexparser.parse_string(text, append_middleware=[SeparateCoAuthors()])
+            b = bibtexparser.parse_string(text, append_middleware=[SeparateCoAuthors(), SplitNameParts()])
+        return a, b
+    r = implutil.guarded(run)
+    if r[0] == "exc":
+        rec["nontrivial"] = True
+        rec["oracle"] = {"ok": False, "detail": "parse_string + SeparateCoAuthors + SplitNameParts raised %s on %r" % (r[2], text)}
+        rec["summary"] = "raised " + r[2]
+        return rec
+    a, b = r[1]
+    ok, detail, kinds, nnames = True, "", [], 0
+    if len(a.blocks) != len(b.blocks):
+        ok, detail = False, "%d blocks without SplitNameParts, %d with it (text %r)" % (len(a.blocks), len(b.blocks), text)
+    for ba, bb in zip(a.blocks, b.blocks) if ok else []:
+        kinds.append(type(bb).__name__[0])
+        if type(ba).__name__ != "Entry":
+            if type(bb) is not type(ba):
+                ok, detail = False, "a %s became a %s" % (type(ba).__name__, type(bb).__name__)
+            continue
+        desc = {"type": ba.entry_type, "key": ba.key, "fields": [[f.key, f.value] for f in ba.fields]}
+        if not all(isinstance(v, list) and all(isinstance(n, str) for n in v) for k, v in desc["fields"] if k in NAME_FIELDS):
+            continue  # not what SplitNameParts is specified on
+        nnames += sum(len(v) for k, v in desc["fields"] if k in NAME_FIELDS)
+        ok, detail = check_lib_block(desc, bb, ba.start_line, ba.raw)
+        if not ok:
+            detail = "text %r, entry %s: %s" % (text, ba.key, detail)
+            break
+    rec["nontrivial"] = nnames >= 1
     rec["oracle"] = {"ok": ok, "detail": detail}
     rec["summary"] = "".join(kinds)
     return rec
